@@ -56,7 +56,7 @@ MAD_POOL = [31, 31, 31, 1, 0.5, 0.001, 0, 365, 1 / 3, 20000, 1e6, 7.25]
 def shards(tier, seed):
     if tier == "quick":
         return [{"n_rt": 22, "n_arb": 2500} for _ in range(16)]
-    return [{"n_rt": 260, "n_arb": 30000} for _ in range(64)]
+    return [{"n_rt": 150, "n_arb": 30000} for _ in range(64)]
 
 
 # ------------------------------------------------------------------ generation
